@@ -23,7 +23,7 @@ def ScopesFrom (P : Prims V) (facts : Facts) : Prop := P.dscope = declScopeOf fa
 def lsetupOf (root : Block) (facts : Facts) (plan : Option Plan) (q : Nat → Expr → Bool) : LSetup :=
   let c := mkCtx root facts
   { c := c, T := tbl root, cfg := Cfg.ofPlan plan, D2 := fun x => !c.usedLocals.contains x,
-    ds := declScopeOf facts, ss := stmtScopeOf facts, q := q }
+    ds := declScopeOf facts, ss := stmtScopeOf facts, q := q, ua := c.unusedAsg root, uv := c.unusedVars }
 
 /-! ### Plan-independent global conditions, decidable -/
 
